@@ -9,6 +9,8 @@
 package main
 
 import (
+	"reflect"
+
 	"context"
 	"encoding/json"
 	"errors"
@@ -175,6 +177,32 @@ func (ri *rootInfo) root() node.Root {
 type recDB struct {
 	api.NodeDB
 	puts, removed []hash.Hash
+	putPos        [][3]uint64 // pathbadger: (node version, index, put order) of written non-root nodes
+	putPosHash    []hash.Hash
+	remPos        [][2]uint64 // pathbadger: positions passed to RemoveNodes
+}
+
+// ptrKey reads pathbadger's internal (version, index) of a pointer (node.go dbPtr) by reflection.
+func ptrKey(p *node.Pointer) (uint64, uint64, bool) {
+	if p == nil || p.DBInternal == nil {
+		return 0, 0, false
+	}
+	v := reflect.ValueOf(p.DBInternal)
+	if v.Kind() == reflect.Ptr {
+		v = v.Elem()
+	}
+	if v.Kind() != reflect.Struct {
+		return 0, 0, false
+	}
+	fv, fi := v.FieldByName("version"), v.FieldByName("index")
+	if !fv.IsValid() || !fi.IsValid() {
+		return 0, 0, false
+	}
+	ver, idx := fv.Uint(), fi.Uint()
+	if ver == ^uint64(0) && idx == uint64(^uint32(0)) {
+		return 0, 0, false // attached leaf: not stored separately
+	}
+	return ver, idx, true
 }
 
 type recBatch struct {
@@ -192,12 +220,19 @@ func (d *recDB) NewBatch(oldRoot node.Root, version uint64, chunk bool) (api.Bat
 
 func (b *recBatch) PutNode(ptr *node.Pointer) error {
 	b.db.puts = append(b.db.puts, ptr.Node.GetHash())
+	if ver, idx, ok := ptrKey(ptr); ok && idx != 0 {
+		b.db.putPos = append(b.db.putPos, [3]uint64{ver, idx, uint64(len(b.db.putPos))})
+		b.db.putPosHash = append(b.db.putPosHash, ptr.Node.GetHash())
+	}
 	return b.Batch.PutNode(ptr)
 }
 
 func (b *recBatch) RemoveNodes(nodes []*node.Pointer) error {
 	for _, p := range nodes {
 		b.db.removed = append(b.db.removed, p.GetHash())
+		if ver, idx, ok := ptrKey(p); ok && idx != 0 {
+			b.db.remPos = append(b.db.remPos, [2]uint64{ver, idx})
+		}
 	}
 	return b.Batch.RemoveNodes(nodes)
 }
@@ -272,6 +307,7 @@ type opObs struct {
 	roots    []rootObs
 	// node-level record (badger only)
 	puts, removed, reach, inl []int
+	tree [][3]int // pathbadger: (node version, index, node id) of the new root's stored nodes
 }
 
 type known struct {
@@ -320,6 +356,7 @@ type runner struct {
 	// pathbadger: a child of a pending candidate that holds a non-zero pending sequence number was
 	// accepted (known finding finKeyPathPipe): every later answer of this backend may depend on
 	// misread nodes
+	trees    map[string][][3]int // pathbadger: "ver/rid" -> stored nodes of the root
 	lost     map[int]string // badger: node id -> finding key of the Finalize that deleted it while still in use
 	tainted  bool
 	seqCount map[string]int // "ver/typ" -> batches that reserved a sequence number
@@ -373,7 +410,7 @@ func newRunner(kind string, pl *plan) (*runner, error) {
 		return nil, err
 	}
 	r := &runner{kind: kind, dir: dir, pl: pl, seen: map[string]bool{}, nodeID: map[hash.Hash]int{}, reach: map[int][]int{}, inl: map[int][]int{},
-		putAt: map[int]map[int]bool{}, stats: map[string]int{}, lastBad: map[string]bool{}, putsBy: map[string]map[int]bool{}, removedBy: map[string]map[int]bool{}, seqCount: map[string]int{}, seqOf: map[string]int{}, lost: map[int]string{}}
+		putAt: map[int]map[int]bool{}, stats: map[string]int{}, lastBad: map[string]bool{}, putsBy: map[string]map[int]bool{}, removedBy: map[string]map[int]bool{}, seqCount: map[string]int{}, seqOf: map[string]int{}, lost: map[int]string{}, trees: map[string][][3]int{}}
 	r.rec = &recDB{NodeDB: ndb}
 	r.ndb = r.rec
 	r.ref = refState{present: map[uint64]map[int]bool{}, derived: map[string][]int{}, finalized: map[uint64]bool{}}
@@ -474,6 +511,54 @@ func (r *runner) observe(o *opObs) {
 	}
 }
 
+// walkTree lists the stored (non-root, non-attached) nodes of a pathbadger root with their positions.
+func (r *runner) walkTree(ri *rootInfo) (out [][3]int) {
+	if ri.rid < 2 {
+		return
+	}
+	root := ri.root()
+	var walk func(ptr *node.Pointer)
+	walk = func(ptr *node.Pointer) {
+		nd, err := r.rec.NodeDB.GetNode(root, ptr)
+		if err != nil {
+			return
+		}
+		if n, ok := nd.(*node.InternalNode); ok {
+			for _, ch := range []*node.Pointer{n.Left, n.Right} {
+				if ch == nil {
+					continue
+				}
+				if ver, idx, ok := ptrKey(ch); ok {
+					out = append(out, [3]int{int(ver), int(idx), r.nid(ch.Hash)})
+				}
+				walk(ch)
+			}
+		}
+	}
+	walk(&node.Pointer{Clean: true, Hash: root.Hash})
+	return
+}
+
+// derivedTree: the new root's stored nodes from the batch itself (old tree minus the positions
+// passed to RemoveNodes plus the written positions) - used when the root cannot be read back.
+func (r *runner) derivedTree(oi *rootInfo) (out [][3]int) {
+	rem := map[[2]uint64]bool{}
+	for _, p := range r.rec.remPos {
+		rem[p] = true
+	}
+	if oi != nil {
+		for _, e := range r.trees[vr(oi.ver, oi.rid)] {
+			if !rem[[2]uint64{uint64(e[0]), uint64(e[1])}] {
+				out = append(out, e)
+			}
+		}
+	}
+	for i, p := range r.rec.putPos {
+		out = append(out, [3]int{int(p[0]), int(p[1]), r.nid(r.rec.putPosHash[i])})
+	}
+	return
+}
+
 // collectReach lists the nodes of a root in the order of api.Visit (node, attached leaf, left,
 // right) and those among them that are serialized inside their parent (attached leaves).
 func (r *runner) collectReach(ri *rootInfo) (out, inl []int) {
@@ -528,7 +613,7 @@ func (r *runner) step(op Op) (o opObs) {
 			r.seen[kk] = true
 			r.known = append(r.known, known{ver: ri.ver, rid: ri.rid, ri: ri})
 		}
-		r.rec.puts, r.rec.removed = nil, nil
+		r.rec.puts, r.rec.removed, r.rec.putPos, r.rec.putPosHash, r.rec.remPos = nil, nil, nil, nil, nil
 		var t mkvs.Tree
 		var oi *rootInfo
 		if op.Old == 0 {
@@ -615,6 +700,18 @@ func (r *runner) step(op Op) (o opObs) {
 					rb[n] = true
 				}
 				r.putsBy[kk], r.removedBy[kk] = pb, rb
+			}
+		}
+		if r.kind == "pathbadger" {
+			if t, ok := r.trees[kk]; ok && !fresh {
+				o.tree = t
+			} else {
+				if r.tainted {
+					o.tree = r.derivedTree(oi)
+				} else {
+					o.tree = r.walkTree(ri)
+				}
+				r.trees[kk] = o.tree
 			}
 		}
 		st, got := r.readRoot(ri, ri.ver)
@@ -1054,7 +1151,7 @@ func runCase(c Case, pl *plan) caseResult {
 			res.cutAt = i
 		}
 		if rp.tainted && res.cutP < 0 {
-			res.cutP = i // pathbadger's part of the case ends before the tainting commit
+			res.cutP = i + 1 // pathbadger's part of the case ends with the tainting commit (PathBadger.v predicts the misread)
 		}
 		// backend equivalence on histories both accept, up to the first divergence caused by a reported defect
 		if rp.unsupported || diverged || rb.stopOracle {
@@ -1126,7 +1223,35 @@ func coqOp(op Op, pl *plan, o opObs) string {
 	return fmt.Sprintf("OPrune %d", op.Ver)
 }
 
-func coqObs(o opObs, classOnlyOk bool) string {
+func coqPOp(op Op, pl *plan, o opObs) string {
+	switch op.K {
+	case "commit":
+		ri := pl.roots[op.ID]
+		old := "None"
+		if op.Old != 0 {
+			oi := pl.roots[op.Old]
+			old = fmt.Sprintf("(Some (%d, %d))", oi.ver, oi.rid)
+		}
+		ws := make([]string, len(op.Writes))
+		for i, w := range op.Writes {
+			ws[i] = fmt.Sprintf("(%d, %d)", w.Key, w.Val)
+		}
+		ts := make([]string, len(o.tree))
+		for i, e := range o.tree {
+			ts[i] = fmt.Sprintf("((%d, %d), %d)", e[0], e[1], e[2])
+		}
+		return fmt.Sprintf("PCommit %d %d %d %s %s %s", op.Ver, ri.typ, ri.rid, old, coqout.List(ws), coqout.List(ts))
+	case "finalize":
+		var rs []int
+		for _, n := range op.Roots {
+			rs = append(rs, pl.roots[n].rid)
+		}
+		return fmt.Sprintf("PFinalize %d %s", op.Ver, nlist(rs))
+	}
+	return fmt.Sprintf("PPrune %d", op.Ver)
+}
+
+func coqObs(o opObs, classOnlyOk, path bool) string {
 	cl := eNames[o.class]
 	if classOnlyOk && o.class != eOk {
 		cl = "EOther"
@@ -1141,7 +1266,11 @@ func coqObs(o opObs, classOnlyOk bool) string {
 	}
 	rs := make([]string, len(o.roots))
 	for i, ro := range o.roots {
-		rs[i] = fmt.Sprintf("((%d, %d), (%s, %d))", ro.ver, ro.rid, coqout.Bool(ro.has), ro.status)
+		st := ro.status
+		if path && st > 1 {
+			st = 2 // pathbadger does not verify what it serves: any misread is "not the root's nodes"
+		}
+		rs[i] = fmt.Sprintf("((%d, %d), (%s, %d))", ro.ver, ro.rid, coqout.Bool(ro.has), st)
 	}
 	return fmt.Sprintf("((%s, %s), (%d, %s), %s)", cl, coqout.List(cs), o.earliest, last, coqout.List(rs))
 }
@@ -1519,7 +1648,7 @@ func main() {
 		fmt.Fprintln(os.Stderr, "need -out")
 		os.Exit(2)
 	}
-	hdr := "From Verif Require Import Lib.Base NodeDB.Spec NodeDB.Badger.\n"
+	hdr := "From Verif Require Import Lib.Base NodeDB.Spec NodeDB.PathBadger NodeDB.Badger.\n"
 	wb := coqout.NewWriter(*out, hdr, "run_case", "case_eqb", 10)
 	sum := coqout.NewSummary("seeded version histories (2-10 versions from start version 0-2, 1-3 state and 0-2 IO candidate roots per version built from the previous finalized root by 0-3 inserts/removes over 8 keys x 2 values incl. re-creation of removed leaves, unchanged and empty roots, the leaf k=v1 placed in both state and IO trees; arbitrary finalized choice; pipelined candidates of version v+1 (1-2 children of the root about to be finalized and an IO root from scratch) committed BEFORE Finalize(v) and competing with candidates committed after it; prune lag 1-3) in three profiles (common / badger-only shapes / interleaved invalid calls) on badger and pathbadger on disk; every known root probed and read back after every operation; non-trivial = at least one successful prune and one discarded candidate; distinct = distinct operation lists")
 	var cases []Case
@@ -1616,7 +1745,7 @@ func main() {
 				sum.Count("pathbadger_root_status", stName(ro.status))
 			}
 			if *verbose {
-				fmt.Printf("op %d %+v\n  badger     %s %s\n  pathbadger %s %s\n", i, op, coqObs(o, false), o.errText, coqObs(res.obsP[i], false), res.obsP[i].errText)
+				fmt.Printf("op %d %+v\n  badger     %s %s\n  pathbadger %s %s\n", i, op, coqObs(o, false, false), o.errText, coqObs(res.obsP[i], false, true), res.obsP[i].errText)
 			}
 		}
 		if res.outOfDomain {
@@ -1644,14 +1773,20 @@ func main() {
 		op2 := make([]string, nk)
 		for i, op := range c.Ops[:nk] {
 			ops[i] = coqOp(op, pl, res.obsB[i])
-			ob[i] = coqObs(res.obsB[i], false)
-			op2[i] = coqObs(res.obsP[i], c.Ops[i].K == "commit")
+			ob[i] = coqObs(res.obsB[i], false, false)
+			op2[i] = coqObs(res.obsP[i], c.Ops[i].K == "commit", true)
 		}
 		if res.cutP >= 0 && res.cutP < len(op2) {
 			op2 = op2[:res.cutP]
 			sum.Count("misc", "pathbadger-part-truncated-for-K-after-known-pipelining-shape")
 		}
-		term := fmt.Sprintf("((%s, %s), (%s, %s))", coqout.List(ops), coqout.Bool(!res.unsupported), coqout.List(ob), coqout.List(op2))
+		var pops []string
+		if !res.unsupported {
+			for i := range op2 {
+				pops = append(pops, coqPOp(c.Ops[i], pl, res.obsP[i]))
+			}
+		}
+		term := fmt.Sprintf("((%s, %s), (%s, %s))", coqout.List(ops), coqout.List(pops), coqout.List(ob), coqout.List(op2))
 		wb.Add(term, map[string]any{"case": c})
 		for _, f := range res.finds {
 			sum.Count("findings", f.key)
